@@ -98,7 +98,7 @@ def generate(rng, tier):
         w = build(spec)
     return {'spec': spec, 'raw_ts': rng.random() < 0.4, 'backend': rng.choice(['simstream', 'simstream', 'simpath', 'bytesio', 'realpath']),
             'dedup_chunk': rng.choice([1, 2, 3, 100]), 'actions': gen_actions(rng, w),
-            'short_seed': rng.getrandbits(32) if rng.random() < 0.2 else None}
+            'short_seed': rng.getrandbits(32) if rng.random() < 0.2 else None, 'debug_log': rng.random() < 0.05}
 
 
 def make_gen(tf, w, a):
@@ -148,7 +148,7 @@ def execute(case):
     trace = [(a['a'], a.get('kind'), a.get('op')) for a in acts]
     from .c04 import _sig
     res.sig = [_sig(spec), trace]
-    with store(short_seed=case['short_seed'], record=False) as st, lib.knobs(dedup_chunk=case['dedup_chunk']):
+    with store(short_seed=case['short_seed'], record=False) as st, lib.knobs(dedup_chunk=case['dedup_chunk'], debug_log=case.get('debug_log', False)):
         st.put('w.tdms', w.data)
         try:
             tf = lib.TdmsFile.open(st.source(case['backend'], 'w.tdms'), raw_timestamps=raw_ts)
